@@ -1482,6 +1482,17 @@ def m_str_trim_matches(ex, m, args, callee):
     return s_
 
 
+@model(r'^<impl str>::(to_uppercase|to_lowercase|to_ascii_uppercase|to_ascii_lowercase)$')
+def m_str_case(ex, m, args, callee):
+    s_ = val(args[0])
+    k = m.group(1)
+    if not isinstance(s_, str):
+        raise Unmodelled('str::%s on non-concrete text' % k)
+    if 'ascii' in k:
+        return ''.join((c.upper() if 'upper' in k else c.lower()) if ord(c) < 128 else c for c in s_)
+    return s_.upper() if 'upper' in k else s_.lower()
+
+
 @model(r'^<impl str>::(find|rfind|split_at|split_once|rsplit_once)$')
 def m_str_find(ex, m, args, callee):
     """byte offsets; modelled for concrete ASCII text only (a byte offset is then a character offset)"""
@@ -2662,7 +2673,7 @@ def m_collect(ex, m, args, callee):
     raise Unmodelled('collect into ' + target)
 
 
-@model(r'^<(.*) as Iterator>::(fold|sum|count|all|any|find|position|last|for_each|max|min|nth|max_by_key|min_by_key)$')
+@model(r'^<(.*) as Iterator>::(fold|sum|count|all|any|find|find_map|position|last|for_each|max|min|nth|max_by_key|min_by_key)$')
 def m_iter_consume(ex, m, args, callee):
     k = m.group(2)
     if k == 'fold':
@@ -2718,6 +2729,15 @@ def m_iter_consume(ex, m, args, callee):
             if best is None or (k == 'max_by_key' and key >= bk) or (k == 'min_by_key' and key < bk):
                 best, bk = item, key
         return some(ex, best) if best is not None else none(ex)
+    if k == 'find_map':
+        it = args[0]
+        while True:
+            r = iter_next(ex, it)
+            if r.variant == 0:
+                return r
+            o = val(ex.call_value(args[1], [r.fields[0]]))
+            if o.variant == 1:
+                return o
     if k == 'position':
         it = args[0]
         idx = 0
